@@ -587,13 +587,25 @@ impl Actor for J {
         Ok(J)
     }
 }
-struct SpawnTask(tokio::sync::oneshot::Receiver<u32>, bool);
+struct SpawnTask(tokio::sync::oneshot::Receiver<u32>, bool, bool);
+struct Pj;
+impl Message<Pj> for J {
+    type Reply = u32;
+    async fn handle(&mut self, _: Pj, _: &ActorRef<Self>) -> u32 {
+        1
+    }
+}
 impl Message<SpawnTask> for J {
     type Reply = tokio::task::JoinHandle<u32>;
-    async fn handle(&mut self, m: SpawnTask, _: &ActorRef<Self>) -> tokio::task::JoinHandle<u32> {
+    async fn handle(&mut self, m: SpawnTask, me: &ActorRef<Self>) -> tokio::task::JoinHandle<u32> {
         let panic = m.1;
+        // the task may call back into the actor that spawned it (through a weak handle: it keeps nothing alive)
+        let weak = if m.2 { Some(ActorRef::downgrade(me)) } else { None };
         tokio::spawn(async move {
             let v = m.0.await.unwrap_or(0);
+            if let Some(r) = weak.as_ref().and_then(ActorWeak::upgrade) {
+                let _ = r.ask(Pj).await; // answered by a live actor, refused at once by one that has ended
+            }
             if panic {
                 panic!("scripted task panic");
             }
@@ -607,12 +619,12 @@ fn askjoin(rep: &mut Report) {
     rt.block_on(async {
         let mut n = 0;
         for end_mode in 0..4u32 {
-            for task_panics in [false, true] {
+            for (task_panics, callback) in [(false, false), (true, false), (false, true)] {
                 n += 1;
                 let (r, jh) = spawn::<J>(());
                 let (tx, rx) = tokio::sync::oneshot::channel();
                 let r2 = r.clone();
-                let asker = tokio::spawn(async move { r2.ask_join(SpawnTask(rx, task_panics)).await });
+                let asker = tokio::spawn(async move { r2.ask_join(SpawnTask(rx, task_panics, callback)).await });
                 for _ in 0..20 {
                     tokio::task::yield_now().await;
                 }
@@ -637,14 +649,14 @@ fn askjoin(rep: &mut Report) {
                 }
                 let _ = tx.send(42);
                 match tokio::time::timeout(Duration::from_secs(10), asker).await {
-                    Err(_) => rep.v("C03", format!("ask_join (end mode {end_mode}) did not return within 10 s after its task finished")),
+                    Err(_) => rep.v("C03", format!("ask_join (end mode {end_mode} of: none, stop, kill, drop; task calls back into its actor: {callback}) did not return within 10 s after its task was released: the caller, or the task's own ask on the actor that has ended, is left waiting")),
                     Ok(Err(_)) => rep.v("C03", "ask_join caller task failed".into()),
                     Ok(Ok(res)) => match (task_panics, res) {
                         (false, Ok(42)) => {}
                         (true, Err(rsactor::Error::Join { .. })) => {}
                         (_, other) => rep.v(
-                            "C03",
-                            format!("ask_join must return exactly the spawned task's output (42) or its join error; end mode {end_mode}, task_panics={task_panics}: got {other:?}"),
+                            "C03 C19",
+                            format!("ask_join must return exactly what awaiting the handler's own JoinHandle gives - the spawned task's output (42) or its join error - whatever happens to the actor meanwhile; end mode {end_mode} (none, stop, kill, drop), task_panics={task_panics}: got {other:?}"),
                         ),
                     },
                 }
@@ -824,7 +836,7 @@ impl Actor for Bk {
                 tokio::task::yield_now().await;
                 Ok(true)
             }
-            // parked until `fail_at` messages have been handled, then fails at once
+            // parked until `fail_at` messages have been handled, then fails at once ("failing2": on_stop fails too)
             _ => {
                 if self.handled >= self.fail_at {
                     self.log.lock().unwrap().push("run err".into());
@@ -837,6 +849,9 @@ impl Actor for Bk {
     }
     async fn on_stop(&mut self, _: &ActorWeak<Self>, killed: bool) -> Result<(), String> {
         self.log.lock().unwrap().push(format!("stop {killed}"));
+        if self.mode == "failing2" {
+            return Err("scripted on_stop error".into());
+        }
         Ok(())
     }
 }
@@ -853,16 +868,19 @@ fn backlog(rep: &mut Report) {
     let rt = tokio::runtime::Builder::new_current_thread().enable_time().build().unwrap();
     let mut cases = 0u64;
     rt.block_on(async {
-        for mode in ["default", "parked", "ticking", "failing"] {
-            for n in [1u32, 15, 16, 17, 32, 63, 64, 65, 100, 200] {
+        for mode in ["default", "parked", "ticking", "failing", "failing2"] {
+            for n in [1u32, 15, 16, 17, 31, 32, 33, 40, 63, 64, 65, 100, 200] {
                 for end in ["stop", "drop"] {
-                    if mode == "failing" && end == "drop" {
-                        continue;
-                    }
+                    // failing modes: "stop" = fails after the whole backlog, "drop" = would fail earlier if polled earlier
+                    // (the reference is kept in both: the failing on_run ends the actor)
                     cases += 1;
                     note(format!("backlog: on_run {mode}, {n} tells queued before the actor runs, then {end}"));
                     let log = Arc::new(Mutex::new(vec![]));
-                    let (r, jh) = spawn_with_mailbox_capacity::<Bk>((log.clone(), mode, n), n as usize + 1);
+                    // a failing on_run fails as soon as it is polled with `fail_at` messages handled: on the unchanged crate that
+                    // is after the whole backlog whatever fail_at is (on_run is not polled while mail is waiting)
+                    // (only for backlogs the sending task can queue within one cooperative-scheduling budget, i.e. before the actor first runs)
+                    let fail_at = if (mode.starts_with("failing") && end == "stop") || n > 100 { n } else if n > 32 { 32 } else if n > 16 { 16 } else { n };
+                    let (r, jh) = spawn_with_mailbox_capacity::<Bk>((log.clone(), mode, fail_at), n as usize + 1);
                     // queued back to back: the actor's task has not run yet (current-thread runtime, no yield so far)
                     let mut sent = true;
                     for k in 0..n {
@@ -871,7 +889,7 @@ fn backlog(rep: &mut Report) {
                     let mut keep = Some(r);
                     let stopped = match (mode, end) {
                         // the failing on_run ends the actor by itself; the reference stays alive meanwhile
-                        ("failing", _) => true,
+("failing", _) | ("failing2", _) => true,
                         (_, "stop") => matches!(tokio::time::timeout(Duration::from_secs(5), keep.as_ref().unwrap().stop()).await, Ok(Ok(()))),
                         _ => {
                             keep = None;
@@ -895,14 +913,20 @@ fn backlog(rep: &mut Report) {
                             if stops != 1 || !l.iter().any(|x| x == "stop false") {
                                 rep.v("C04 C08 C07", format!("{what}: on_stop(killed=false) must run exactly once; log tail {:?}", &l[l.len().saturating_sub(4)..]));
                             }
-                            if mode == "failing" {
+                            if mode == "failing2" {
+                                if !out.is_cleanup_failed() || out.was_killed() {
+                                    rep.v("C05 C08", format!("{what}: on_run returned Err after the backlog and the cleanup on_stop returned Err too: the result must say so (failed in on_run, then in on_stop; not killed)"));
+                                }
+                            } else if mode == "failing" {
                                 if !out.is_runtime_failed() || out.was_killed() {
                                     rep.v("C08 C05", format!("{what}: on_run returned Err after the backlog: the result must be an on_run failure, not killed"));
                                 }
+                            }
+                            if mode.starts_with("failing") {
                                 if l.iter().position(|x| x == "run err").map_or(true, |p| l.iter().position(|x| x.starts_with("stop")).map_or(true, |q| q < p)) {
                                     rep.v("C04 C08", format!("{what}: on_stop must follow the failing on_run pass; log tail {:?}", &l[l.len().saturating_sub(4)..]));
                                 }
-                            } else if !out.is_completed() || out.was_killed() {
+                            } else if !mode.starts_with("failing") && (!out.is_completed() || out.was_killed()) {
                                 rep.v("C05 C07", format!("{what}: the actor must end as completed, not killed"));
                             }
                         }
@@ -1050,6 +1074,28 @@ fn replyclose(rep: &mut Report) {
                 }
             }
         }
+        // an actor that has ended, timed operations with a zero or tiny budget: the one failure is reported as itself
+        // (Send) and recorded once, whatever the clock says afterwards
+        for tmo in [Duration::ZERO, Duration::from_nanos(1), Duration::from_millis(5)] {
+            for form in ["tell", "ask"] {
+                cases += 1;
+                let log = Arc::new(Mutex::new(vec![]));
+                let (r, jh) = spawn_with_mailbox_capacity::<Rc2>(log.clone(), 4);
+                let _ = r.kill();
+                let _ = tokio::time::timeout(Duration::from_secs(5), jh).await;
+                let before = harness::log::DEAD_LETTER_EVENTS.load(SeqCst);
+                let res = if form == "tell" {
+                    r.tell_with_timeout(CloseBy("none"), tmo).await.map(|_| 0)
+                } else {
+                    r.ask_with_timeout(CloseBy("none"), tmo).await
+                };
+                tokio::time::sleep(Duration::from_millis(10)).await;
+                let delta = harness::log::DEAD_LETTER_EVENTS.load(SeqCst) - before;
+                if !matches!(res, Err(rsactor::Error::Send { .. })) || delta != 1 {
+                    rep.v("C13 C10", format!("{form}_with_timeout(.., {tmo:?}) on an actor that has ended returned {res:?} with {delta} dead letter(s): the failure is Err(Send), reported as itself, and recorded exactly once"));
+                }
+            }
+        }
         rep.s("replyclose", format!("cases={cases}"));
     });
 }
@@ -1085,6 +1131,13 @@ impl Actor for Hp {
             panic!("scripted panic in on_stop");
         }
         Ok(())
+    }
+}
+struct Hold(tokio::sync::oneshot::Receiver<()>);
+impl Message<Hold> for Hp {
+    type Reply = ();
+    async fn handle(&mut self, m: Hold, _: &ActorRef<Self>) {
+        let _ = m.0.await;
     }
 }
 struct Pm(u32);
@@ -1164,6 +1217,23 @@ fn hookpanic(rep: &mut Report) {
                     rep.v("C12 C03", format!("{what}: a tell issued 25 ms after the panic returned Ok"));
                 }
                 let _ = stops_before;
+                // framework-wide state is intact: a plain spawn() afterwards has the default capacity (nothing configures one here)
+                if end == "stop" {
+                    let log2 = Arc::new(Mutex::new(vec![]));
+                    let (r2, _jh2) = rsactor::spawn::<Hp>((log2, "gate"));
+                    let (gtx, grx) = tokio::sync::oneshot::channel::<()>();
+                    let _ = r2.tell(Hold(grx)).await;
+                    tokio::task::yield_now().await;
+                    let mut accepted = 0usize;
+                    while accepted < 40 && matches!(tokio::time::timeout(Duration::from_millis(2), r2.tell(Pm(5))).await, Ok(Ok(()))) {
+                        accepted += 1;
+                    }
+                    if accepted != 32 {
+                        rep.v("C12 C09", format!("{what}: an actor spawned afterwards with plain spawn() accepted {accepted} messages while parked in a handler (the default capacity is 32): the earlier actor's panic changed what later spawns get"));
+                    }
+                    let _ = gtx.send(());
+                    let _ = r2.kill();
+                }
             }
         }
         rep.s("hookpanic", format!("cases={cases}"));
@@ -1292,6 +1362,53 @@ fn selfchain(rep: &mut Report) {
         }
         rep.s("selfchain", format!("cases={cases}"));
     });
+}
+
+// ------------------------------------------------------------------------------------------------ after the end
+/// once the JoinHandle has resolved the actor is gone for everybody: is_alive is false, every send fails at once, whatever
+/// was still queued when it ended
+fn afterend(rep: &mut Report) {
+    let mut cases = 0u64;
+    for flavour in ["multi-thread, from a worker task", "current-thread, event_interval 1"] {
+      let rt = if flavour.starts_with("multi") {
+          tokio::runtime::Builder::new_multi_thread().worker_threads(2).enable_time().build().unwrap()
+      } else {
+          tokio::runtime::Builder::new_current_thread().enable_time().event_interval(1).build().unwrap()
+      };
+      let found: Vec<String> = rt.block_on(async {
+       let h = tokio::spawn(async move {
+        let mut found = vec![];
+        for it in 0..300u32 {
+            let log = Arc::new(Mutex::new(vec![]));
+            let (r, jh) = spawn_with_mailbox_capacity::<B>((log.clone(), if it % 2 == 0 { 1 } else { 0 }), 8);
+            for k in 0..5u32 {
+                let _ = r.tell(W(k)).await;
+            }
+            if it % 3 == 0 {
+                let _ = r.stop().await;
+                let _ = r.tell(W(6)).await; // queued behind the stop marker
+            } else {
+                let _ = r.kill();
+            }
+            let _ = tokio::time::timeout(Duration::from_secs(10), jh).await;
+            let alive = r.is_alive();
+            let t = r.tell(W(7)).await;
+            let a = tokio::time::timeout(Duration::from_secs(5), r.ask(W(8))).await;
+            if alive || t.is_ok() || !matches!(a, Ok(Err(rsactor::Error::Send { .. }))) {
+                found.push(format!("afterend ({flavour}; iteration {it}, ended by {} with messages still queued): after the JoinHandle resolved is_alive() = {alive}, tell returned {t:?}, ask returned {a:?} (is_alive is false and every send fails with Err(Send) at once)", if it % 3 == 0 { "stop()" } else { "kill()" }));
+                break;
+            }
+        }
+        found
+       });
+       h.await.unwrap_or_default()
+      });
+      cases += 300;
+      for f in found {
+          rep.v("C11 C03", f);
+      }
+    }
+    rep.s("afterend", format!("cases={cases}"));
 }
 
 // ------------------------------------------------------------------------------------------------ late completion (real time)
@@ -1445,6 +1562,37 @@ fn late(rep: &mut Report) {
         }
         rep.s("late", format!("cases={cases}"));
     });
+}
+
+/// an actor whose handler uses the blocking API on itself
+struct Sb {
+    last: u32,
+}
+impl Actor for Sb {
+    type Args = ();
+    type Error = String;
+    async fn on_start(_: (), _: &ActorRef<Self>) -> Result<Self, String> {
+        Ok(Sb { last: 9 })
+    }
+}
+struct SelfBlock(bool);
+impl Message<SelfBlock> for Sb {
+    type Reply = u32;
+    async fn handle(&mut self, m: SelfBlock, me: &ActorRef<Self>) -> u32 {
+        if m.0 {
+            // make sure the only slot is taken (by this message, or by one a client has queued meanwhile)
+            let _ = me.tell_with_timeout(SelfBlock(false), Duration::from_millis(20)).await;
+            let me2 = me.clone();
+            // the blocking call needs a thread of its own to block on; it is still issued in this handler's context
+            let res = tokio::task::block_in_place(|| me2.blocking_tell(SelfBlock(false), Some(Duration::from_millis(60))));
+            self.last = match res {
+                Ok(()) => 0,
+                Err(rsactor::Error::Timeout { .. }) => 2,
+                Err(_) => 1,
+            };
+        }
+        self.last
+    }
 }
 
 // ------------------------------------------------------------------------------------------------ blocking API from threads
@@ -1926,6 +2074,29 @@ fn blocking(rep: &mut Report) {
             }
         }
     }
+    // (b13) timed blocking calls made at the same time from different threads do not wait for one another
+    {
+        note("blocking (b13): a timed blocking_ask against a slow actor in flight on one thread, a timed blocking_tell to an idle actor from another".into());
+        let log = Arc::new(Mutex::new(vec![]));
+        let (slow, _j1) = rt.block_on(async { spawn_with_mailbox_capacity::<B>((log.clone(), 600), 4) });
+        let (idle, _j2) = rt.block_on(async { spawn_with_mailbox_capacity::<B>((log.clone(), 0), 4) });
+        let s2 = slow.clone();
+        let th = std::thread::spawn(move || s2.blocking_ask(W(41), Some(Duration::from_secs(5))).is_ok());
+        std::thread::sleep(Duration::from_millis(100)); // the first call is in flight (its handler sleeps 600 ms)
+        let t0 = Instant::now();
+        let a = idle.blocking_tell(W(42), Some(Duration::from_millis(300)));
+        let ta = t0.elapsed();
+        let t1 = Instant::now();
+        let b = idle.blocking_ask(W(43), Some(Duration::from_millis(300)));
+        let tb = t1.elapsed();
+        let first = th.join().unwrap_or(false);
+        calls += 3;
+        if !first || !matches!(a, Ok(())) || !matches!(b, Ok(43)) || ta > Duration::from_millis(300) || tb > Duration::from_millis(300) {
+            rep.v("C10 C17", format!("while a blocking_ask(.., Some(5 s)) against a 600 ms handler was in flight on another thread (ok={first}), blocking_tell(.., Some(300 ms)) to an idle actor returned {a:?} after {ta:?} and blocking_ask(.., Some(300 ms)) returned {b:?} after {tb:?}: both complete at once and never later than their deadline"));
+        }
+        let _ = slow.kill();
+        let _ = idle.kill();
+    }
     // (b8) what a blocking_tell with a timeout returns agrees with what happened to the message, also when the
     //      actor ends right after handling it
     {
@@ -2019,6 +2190,30 @@ fn blocking(rep: &mut Report) {
                 }
             }
             Err(_) => rep.v(&format!("{tag} C10"), format!("blocking_tell / blocking_ask with a timeout called through {via} directly from async code on a current_thread runtime did not return within 15 s (deadlines 500 ms and 300 ms)")),
+        }
+    }
+    // (c3) from inside a handler, into the actor's own full mailbox: the timed blocking call gives up at its deadline with
+    //      Err(Timeout), exactly like tell_with_timeout in the same spot - in every build
+    {
+        note("blocking (c3): blocking_tell(.., Some(60 ms)) issued by a handler into its own full capacity-1 mailbox".into());
+        let (tx, rx) = std::sync::mpsc::channel();
+        std::thread::spawn(move || {
+            let rt1 = tokio::runtime::Builder::new_multi_thread().worker_threads(2).enable_time().build().unwrap();
+            let out = rt1.block_on(async {
+                let (r, jh) = spawn_with_mailbox_capacity::<Sb>((), 1);
+                let _ = r.tell(SelfBlock(true)).await; // its handler first fills the mailbox, then blocks on a timed self-send
+                let res = tokio::time::timeout(Duration::from_secs(10), r.ask(SelfBlock(false))).await;
+                let _ = r.kill();
+                let ended = tokio::time::timeout(Duration::from_secs(5), jh).await;
+                (res.ok().and_then(|x| x.ok()), ended.map(|x| x.is_ok()).unwrap_or(false))
+            });
+            let _ = tx.send(out);
+        });
+        calls += 1;
+        match rx.recv_timeout(Duration::from_secs(30)) {
+            Ok((Some(code), true)) if code == 2 => {}
+            Ok(other) => rep.v("C17 C09", format!("a handler's blocking_tell(.., Some(60 ms)) into its own full mailbox: expected Err(Timeout) (reported by the actor as code 2: 0 = Ok, 1 = other error, 2 = Timeout) and a live actor, got {other:?} (None = the actor did not answer any more, e.g. its task panicked)")),
+            Err(_) => rep.v("C17 C10", "a handler's blocking_tell(.., Some(60 ms)) into its own full mailbox did not return within 30 s".into()),
         }
     }
     rep.s("blocking", format!("calls={calls}"));
@@ -2200,7 +2395,7 @@ fn idlewin_check(rep: &mut Report, what: &str, plan: &[(u32, char, bool)], log: 
     }
     if let Some(e) = rets.iter().find(|r| r.1 == 'e' || r.1 == 'k').map(|r| r.0) {
         if !log.iter().any(|l| l == "stop false") {
-            rep.v("C08", format!("{what}: on_run pass {e} returned Err but on_stop(killed=false) did not run; log {log:?}"));
+            rep.v("C08 C04", format!("{what}: on_run pass {e} returned Err but on_stop(killed=false) did not run (an on_run error is not a kill, whatever was requested meanwhile: killed=true iff a kill signal was consumed); log {log:?}"));
         }
     }
 }
@@ -2549,6 +2744,7 @@ fn main() {
             "replyclose" => ("C13 C03", 120),
             "hookpanic" => ("C04 C12 C05", 240),
             "selfchain" => ("C01 C07 C11 C05", 240),
+            "afterend" => ("C11 C03", 240),
             "erasedblk" => ("C16 C17", 600),
             "blocking" => ("C17 C10 C03", 720),
             "ids" => ("C11", 120),
@@ -2578,6 +2774,7 @@ fn main() {
                     "replyclose" => replyclose(&mut r),
                     "hookpanic" => hookpanic(&mut r),
                     "selfchain" => selfchain(&mut r),
+                    "afterend" => afterend(&mut r),
                     "erasedblk" => erasedblk(&mut r),
                     "blocking" => blocking(&mut r),
                     "ids" => ids(&mut r),
